@@ -85,8 +85,8 @@ def make_env(sname, delay):
 
 def snapshot(env):
     b = env.broker
-    return (tuple(sorted((str(k), float(v)) for k, v in b._holdings_quantity.items())),
-            tuple(sorted((str(k), float(v)) for k, v in b._holdings_margins.items() if v != 0)), len(b.track_record))
+    return (tuple(sorted((str(k), fl(v)) for k, v in b._holdings_quantity.items())),
+            tuple(sorted((str(k), fl(v)) for k, v in b._holdings_margins.items() if np.any(np.asarray(v) != 0))), len(b.track_record))
 
 
 def run_case(sname, delay, bad_idx, pos, filler):
@@ -141,7 +141,7 @@ def run_case(sname, delay, bad_idx, pos, filler):
                     continue
                 tr2 = env.broker.track_record
                 if len(tr2) > n2:
-                    got2 = {getattr(c, "symbol", str(c)): float(v) for c, v in tr2[-1].allocation.items()}
+                    got2 = {getattr(c, "symbol", str(c)): fl(v) for c, v in tr2[-1].allocation.items()}
                     if got2 not in allowed:
                         msgs.append("after the malformed action %r was rejected at step %d, step %d executed allocation %r, which no "
                                     "in-space submitted action denotes (submitted: %r)" % (submitted[due[0]][1], k, k2, got2, allowed))
@@ -161,7 +161,7 @@ def run_case(sname, delay, bad_idx, pos, filler):
         if len(tr) != k + 1:
             msgs.append("track record has %d entries after %d successful steps" % (len(tr), k + 1))
             break
-        got = {getattr(c, "symbol", str(c)): float(v) for c, v in tr[k].allocation.items()}
+        got = {getattr(c, "symbol", str(c)): fl(v) for c, v in tr[k].allocation.items()}
         if j >= 0:
             kind, src = submitted[j]
             if kind == "bad":
@@ -184,6 +184,12 @@ def run_case(sname, delay, bad_idx, pos, filler):
     if raised_at is not None and bad_idx is not None and raised_at > pos + delay:
         msgs.append("malformed action raised at step %d, later than its due step %d" % (raised_at, pos + delay))
     return msgs, raised_at
+
+
+def fl(v):
+    """value of an executed allocation entry; an entry that is not a scalar (a malformed action that got through) is shown as it is"""
+    a = np.asarray(v, dtype=float).ravel()
+    return float(a[0]) if a.size == 1 else tuple(float(x) for x in a)
 
 
 def all_cases(tier):
